@@ -272,8 +272,55 @@ def read_file_dispatch(ctx: Ctx, part: Partial):
             setattr(m, fn, orig)
 
 
+def judge_switches(steps):
+    """steps: [{"cfg": name} | {"path": str}] - configuration changes and queries in one process; every query is judged under the configuration in force."""
+    cfg = "default"
+    set_mime_config(cfg)
+    for i, s in enumerate(steps):
+        if "cfg" in s:
+            cfg = s["cfg"]
+            set_mime_config(cfg)
+            continue
+        fails, sup, got = judge(s["path"], cfg)
+        if fails:
+            c, d = fails[0]
+            return [(c, f"step {i} after {[x.get('cfg') or x['path'] for x in steps[:i]]}: {d}")]
+    return []
+
+
+def _fallback_exts(pool):
+    import mimetypes
+    return sorted({e for e in pool if e and ref_route("x." + e) is None and mimetypes.guess_type("x." + e)[0] and outcome("notes." + e)[1][0] == "ok"} | {"log", "bak", "exe", "text", "markdown", "xhtml"})
+
+
+def switch_shard(ctx: Ctx):
+    """The MIME configuration changes while the process runs (mimetypes.add_type / init are public API): the answers must follow it."""
+    part = Partial()
+    set_mime_config("default")
+    pool = _ext_pool()
+    import mimetypes
+    # extensions that only the MIME fallback can decide: supported under the default database without being documented, or re-typed by the hostile configuration
+    from vf.props.c08 import in_fresh_fork
+    fallback = in_fresh_fork(_fallback_exts, pool)
+    paths = st.one_of(st.sampled_from(fallback).map(lambda e: "notes." + e), st.sampled_from(pool).map(lambda e: "dir/x." + e))
+    step = st.one_of(st.fixed_dictionaries({"cfg": st.sampled_from(["default", "empty", "hostile"])}), st.fixed_dictionaries({"path": paths}), st.fixed_dictionaries({"path": paths}))
+
+    def ev(steps):
+        fails = in_fresh_fork(judge_switches, steps)      # every history starts from this process's untouched state, so a reported history replays as it stands
+        asked = [s["path"] for s in steps if "path" in s]
+        switches = sum(1 for s in steps if "cfg" in s)
+        part.case(digest(["switch", steps]), switches >= 1 and len(asked) > len(set(asked)), sample={"steps": [s.get("cfg") or s["path"] for s in steps]} if part.evaluations % 97 == 0 else None, leg="switch")
+        return [Violation(c, f"C07:{c}", d, {"kind": "switches", "steps": steps}) for c, d in fails]
+    try:
+        hyp_search(ctx, "switches", st.lists(step, min_size=2, max_size=14), ev, ctx.n(400, 8000), part)
+    finally:
+        set_mime_config("default")
+    return part
+
+
 def run(ctx: Ctx) -> Partial:
     part = Partial()
+    part.merge(shard_map(ctx, "vf.props.c07", "switch_shard", 1))
     cfgs = ["default", "empty", "hostile"]
     sub = shard_map(ctx, "vf.props.c07", "shard", 3, extra_per_shard=[[c] for c in cfgs])
     tables = {n["cfg"]: n["table"] for n in sub.notes if isinstance(n, dict)}
@@ -292,6 +339,12 @@ def run(ctx: Ctx) -> Partial:
 
 
 def replay(ctx: Ctx, payload: dict):
+    if payload.get("kind") == "switches":
+        try:
+            from vf.props.c08 import in_fresh_fork
+            return [Violation(c, f"C07:{c}", d, payload) for c, d in in_fresh_fork(judge_switches, payload["steps"])]
+        finally:
+            set_mime_config("default")
     set_mime_config(payload.get("cfg", "default"))
     fails, sup, got = judge(payload["path"], payload.get("cfg", "default"))
     return [Violation(c, f"C07:{c}", d, {"kind": "paths", "path": payload["path"], "cfg": payload.get("cfg", "default")}) for c, d in fails]
